@@ -22,6 +22,7 @@ import (
 	proto "github.com/kubewharf/kubebrain-client/api/v2rpc"
 
 	"github.com/kubewharf/kubebrain/pkg/backend"
+	"github.com/kubewharf/kubebrain/pkg/server"
 	"github.com/kubewharf/kubebrain/pkg/server/brain"
 	"github.com/kubewharf/kubebrain/pkg/server/etcd"
 	"github.com/kubewharf/kubebrain/pkg/server/service/leader"
@@ -163,18 +164,34 @@ func cmdRoleRun(args []string) int {
 	// the "leader": an HTTP endpoint that answers /status like server.revisionHandler does
 	mode := "reachable"
 	var modeMu sync.Mutex
+	// the leader's and a non-leader's /status are the REAL handlers of two real servers (pkg/server) over one store:
+	// the first node wins the election (brain.New starts the campaign), the second one stays a follower and refuses
+	lenv := kb.NewEnv(kb.Options{Engine: eng, KeyNames: defaultKeyNames, Gated: false, Record: false, Base: 100, Etcd: true, Prefix: "/roleleader", Identity: "leader-node"})
+	lsrv := server.NewServer(lenv.B, kb.Metrics(), server.Config{})
+	lstatus := lsrv.GetPeerHttpHandlers()["/status"]
+	isLeader := func(h http.Handler) bool {
+		rr := httptest.NewRecorder()
+		h.ServeHTTP(rr, httptest.NewRequest("GET", "/status", nil))
+		return rr.Code == 200
+	}
+	for t0 := time.Now(); !isLeader(lstatus); time.Sleep(20 * time.Millisecond) {
+		if time.Since(t0) > 10*time.Second {
+			fmt.Println("the leader node did not win its election in time")
+			return 2
+		}
+	}
+	lenv.B.SetCurrentRevision(leaderRev)
+	fenv := kb.NewEnv(kb.Options{Engine: eng, KeyNames: defaultKeyNames, Gated: false, Record: false, Base: 100, Etcd: true, Prefix: "/roleleader", Identity: "other-node"})
+	fstatus := server.NewServer(fenv.B, kb.Metrics(), server.Config{}).GetPeerHttpHandlers()["/status"]
 	srv := httptest.NewServer(http.HandlerFunc(func(w http.ResponseWriter, req *http.Request) {
 		modeMu.Lock()
 		m := mode
 		modeMu.Unlock()
 		if m == "error" {
-			w.WriteHeader(400)
-			w.Write([]byte("i'm not leader, so can't tell you revision"))
+			fstatus.ServeHTTP(w, req) // a node that is not the leader
 			return
 		}
-		w.WriteHeader(200)
-		bs, _ := json.Marshal(&revision.LeaderRevision{Revision: leaderRev})
-		w.Write(bs)
+		lstatus.ServeHTTP(w, req)
 	}))
 	defer srv.Close()
 	deadSrv := httptest.NewServer(http.NotFoundHandler())
@@ -184,6 +201,7 @@ func cmdRoleRun(args []string) int {
 
 	methods := []struct{ api, m, kind string }{
 		{"etcd", "Txn", "write"}, {"etcd", "Range", "read"}, {"etcd", "Watch", "watch"}, {"etcd", "RangeStream", "read"},
+		{"etcd", "Get", "read"}, {"etcd", "RangeAtRev", "read"}, {"etcd", "CountAtRev", "read"}, {"etcd", "ListPartition", "read"},
 		{"brain", "Create", "write"}, {"brain", "Update", "write"}, {"brain", "Delete", "write"}, {"brain", "Compact", "write"},
 		{"brain", "Get", "read"}, {"brain", "Range", "read"}, {"brain", "Count", "read"}, {"brain", "ListPartition", "read"},
 		{"brain", "RangeStream", "read"}, {"brain", "Watch", "watch"},
@@ -221,6 +239,14 @@ func cmdRoleRun(args []string) int {
 						_, cerr = es.Txn(ctx, &etcdserverpb.TxnRequest{Compare: []*etcdserverpb.Compare{cmpMod(key, 0)}, Success: []*etcdserverpb.RequestOp{opPut(key, []byte("v"))}})
 					case "etcd.Range":
 						_, cerr = es.Range(ctx, &etcdserverpb.RangeRequest{Key: lo, RangeEnd: hi})
+					case "etcd.Get":
+						_, cerr = es.Range(ctx, &etcdserverpb.RangeRequest{Key: env.Keys.Raw(1)})
+					case "etcd.RangeAtRev":
+						_, cerr = es.Range(ctx, &etcdserverpb.RangeRequest{Key: lo, RangeEnd: hi, Revision: 101})
+					case "etcd.CountAtRev":
+						_, cerr = es.Range(ctx, &etcdserverpb.RangeRequest{Key: lo, RangeEnd: hi, Revision: 101, CountOnly: true})
+					case "etcd.ListPartition":
+						_, cerr = es.Range(ctx, &etcdserverpb.RangeRequest{Key: lo, RangeEnd: hi, Revision: etcd.GetPartitionMagic})
 					case "etcd.Watch", "etcd.RangeStream":
 						wctx, wcancel := context.WithCancel(ctx)
 						ws := newFakeWatchStream(wctx)
